@@ -1532,7 +1532,8 @@ impl GRLParser {
         // Function calls: update($Object), retract($Object), etc.
         if let Some(captures) = function_binding_regex().captures(trimmed) {
             let function_name = captures.get(1).unwrap();
-            let args_str = captures.get(2).unwrap_or("");
+            // the lazy group can keep the white space in front of the closing parenthesis
+            let args_str = captures.get(2).unwrap_or("").trim();
 
             match function_name.to_lowercase().as_str() {
                 "retract" => {
